@@ -68,7 +68,11 @@ func (rn *runner) bytesCase(k int, c *codec, b []byte) *report {
 	rep := rn.ask(k, c.name, "B "+c.name+" "+hx.Hex(b))
 	if c.modelled && len(b) <= maxModelInput && !(strings.HasPrefix(c.name, "message") && len(b) > 0 && b[0]&1 != 0) {
 		// (compressed frames go to the real decoder only: LZ4 is not modelled)
-		rn.o.Line("dec "+c.name+" "+hx.Hex(b), rep.obs)
+		op := "dec " + c.name + " " + hx.Hex(b)
+		if c.decArg != nil {
+			op += " " + c.decArg(rep.obs)
+		}
+		rn.o.Line(op, rep.obs)
 	}
 	switch {
 	case strings.HasPrefix(rep.obs, "ok"):
@@ -426,7 +430,7 @@ func main() {
 			continue
 		}
 		r := prng.ForCase(f.Seed, k)
-		switch r.Weighted([]int{8, 58, 14, 14, 6}) {
+		switch r.Weighted([]int{8, 42, 11, 11, 10, 8, 4, 6}) {
 		case 0:
 			rn.varuintCase(k, r)
 			o.Count("case:varuint")
@@ -439,9 +443,30 @@ func main() {
 		case 3:
 			rn.randomCase(k, r)
 			o.Count("case:random-bytes")
+		case 4:
+			switch r.Intn(8) {
+			case 6, 7:
+				rn.objCase(k, r)
+				o.Count("case:object-methods")
+			case 0, 1:
+				rn.reuseCase(k, r)
+				o.Count("case:reuse")
+			case 2:
+				rn.arraySizeCase(k, r)
+				o.Count("case:array-size")
+			default:
+				rn.copyCase(k, r)
+				o.Count("case:copy")
+			}
+		case 5:
+			rn.storedCase(k, r)
+			o.Count("case:stored-form")
+		case 6:
+			rn.dagCase(k, r)
+			o.Count("case:item-dag")
 		default:
-			rn.copyCase(k, r)
-			o.Count("case:copy")
+			rn.jsonCase(k, r)
+			o.Count("case:item-json")
 		}
 	}
 }
